@@ -43,8 +43,8 @@ type libSigner struct {
 }
 
 func (s *libSigner) Sign(d []byte) ([]byte, error) { return s.sign(d) }
-func (s *libSigner) Headers() jws.Headers           { return s.hdr }
-func (s *libSigner) PublicKeyJWK() *jws.JWK         { return s.jwk }
+func (s *libSigner) Headers() jws.Headers          { return s.hdr }
+func (s *libSigner) PublicKeyJWK() *jws.JWK        { return s.jwk }
 
 func (k *keyPair) public() crypto.PublicKey {
 	if k.kind == "Ed25519" {
@@ -123,7 +123,7 @@ func randDocKeys(r *rand.Rand, prefix string, n int) []docKeySpec {
 // place or append; empty lists are dropped (the comparison treats null / [] / absent alike)
 type expDoc struct {
 	keys, svcs A
-	akas      []string
+	akas       []string
 }
 
 func (e *expDoc) doc() M {
@@ -197,6 +197,10 @@ func lifecycleCase(r *rand.Rand, idx int) caseOut {
 	opKind := keyKinds[idx%len(keyKinds)]
 	useClient := idx%2 == 0
 	recKey, updKey := genKey(r, opKind), genKey(r, opKind)
+	zeroLead := idx%3 == 1 && opKind != "Ed25519"
+	if zeroLead { // operation keys with a leading zero byte in a coordinate (fixed-width JWK encoding matters)
+		recKey, updKey = zeroLeadKey(opKind, "x", 0), zeroLeadKey(opKind, "y", 0)
+	}
 	var captured [][]byte
 	cl := sidetree.New(sidetree.WithSidetreeOperationRequestFnc(func(req []byte, _ sidetree.GetEndpointsFunc) ([]byte, error) {
 		captured = append(captured, req)
@@ -206,6 +210,9 @@ func lifecycleCase(r *rand.Rand, idx int) caseOut {
 	var origin interface{}
 	var steps []lifeStep
 	label := fmt.Sprintf("lifecycle:%s,code-%d", opKind, code)
+	if zeroLead {
+		label += ",zero-lead-coordinates"
+	}
 	if useClient {
 		label += ",sidetree-client"
 	} else {
@@ -218,7 +225,12 @@ func lifecycleCase(r *rand.Rand, idx int) caseOut {
 	}
 	var metas []stepMeta
 	var expAfter []M
-	snap := func() { b, _ := json.Marshal(exp.doc()); var m M; json.Unmarshal(b, &m); expAfter = append(expAfter, m) }
+	snap := func() {
+		b, _ := json.Marshal(exp.doc())
+		var m M
+		json.Unmarshal(b, &m)
+		expAfter = append(expAfter, m)
+	}
 	// ---- create
 	keys := randDocKeys(r, "key", 1+r.Intn(3))
 	svcs := []svcSpec{{"svc1", "T1", "https://example.com/one"}}
@@ -279,6 +291,9 @@ func lifecycleCase(r *rand.Rand, idx int) caseOut {
 	doUpdates := func(count int) {
 		for u := 0; u < count; u++ {
 			next := genKey(r, opKind)
+			if zeroLead {
+				next = zeroLeadKey(opKind, []string{"x", "y"}[len(steps)%2], 1+len(steps))
+			}
 			t += uint64(1 + r.Intn(100))
 			addK := randDocKeys(r, fmt.Sprintf("u%dk", len(steps)), r.Intn(2))
 			if len(exp.keys) > 0 && r.Intn(2) == 0 { // rotate an existing key in place: remove + add the same id
@@ -425,6 +440,9 @@ func lifecycleCase(r *rand.Rand, idx int) caseOut {
 	// recover
 	{
 		nextRec, nextUpd := genKey(r, opKind), genKey(r, opKind)
+		if zeroLead {
+			nextRec, nextUpd = zeroLeadKey(opKind, "y", 20), zeroLeadKey(opKind, "x", 20)
+		}
 		t += uint64(1 + r.Intn(100))
 		exp = &expDoc{}
 		keys := randDocKeys(r, "rkey", 1+r.Intn(2))
@@ -631,9 +649,9 @@ func builderRefusals(r *rand.Rand) []caseOut {
 	add := func(label string, code int, err error, expectRefuse bool) {
 		h := sha256.Sum256([]byte(label))
 		out = append(out, caseOut{
-			Coq:    fmt.Sprintf("(mk_c08refuse %d%%nat %s %s)", code, cBool(err != nil), cBool(expectRefuse)),
-			Rec:    map[string]interface{}{"builder_refused": err != nil, "expect_refuse": expectRefuse, "error": fmt.Sprint(err)},
-			Label:  "builder-refusal:" + label, NonTri: fmt.Sprintf("%x", h[:8]),
+			Coq:   fmt.Sprintf("(mk_c08refuse %d%%nat %s %s)", code, cBool(err != nil), cBool(expectRefuse)),
+			Rec:   map[string]interface{}{"builder_refused": err != nil, "expect_refuse": expectRefuse, "error": fmt.Sprint(err)},
+			Label: "builder-refusal:" + label, NonTri: fmt.Sprintf("%x", h[:8]),
 		})
 	}
 	_, err := client.NewCreateRequest(&client.CreateRequestInfo{OpaqueDocument: doc, RecoveryCommitment: c18(k), UpdateCommitment: c18(k), MultihashCode: 18})
